@@ -339,10 +339,8 @@ Fixpoint reserve (rollback : bool) (ws : list qosw) (size : N) : option (list qo
   match ws with
   | [] => (Some [], [])
   | w :: t =>
-    if negb (qos_active w) then
-      let '(r, t') := reserve rollback t size in
-      (match r with Some l => Some (w :: l) | None => None end, w :: t')
-    else match qos_inc w size with
+    (* every window is charged, also one without a limit (qos_inc never refuses then): F49 repaired *)
+    match qos_inc w size with
          | None => (None, w :: t)
          | Some w' =>
            let '(r, t') := reserve rollback t size in
